@@ -1,0 +1,20 @@
+//go:build verif
+
+// Contracts for package storage, read by /verif/govc (comment-only: no declarations, no effect on any build).
+// The default Storage: what is returned for a key is exactly what was stored under that key.
+
+package storage
+
+//@ func (*InMemoryStorage).getCommit
+//@   props C10 C03
+//@   requires storage.commitStorage != nil
+//@   ensures [absent] !result1 ==> !(has(storage.commitStorage, blockHeight) && has(storage.commitStorage[blockHeight], view))
+//@   ensures [present] result1 ==> has(storage.commitStorage, blockHeight) && has(storage.commitStorage[blockHeight], view) && result0 == storage.commitStorage[blockHeight][view][content(blockHash)]
+
+//@ func (*InMemoryStorage).GetCommitSendersIds
+//@   props C10 C03
+//@   requires storage.commitStorage != nil
+//@   ensures [only-senders-stored-for-this-height-view-and-hash] forall i int :: 0 <= i && i < len(result) ==> has(storage.commitStorage, blockHeight) && has(storage.commitStorage[blockHeight], view)
+//@     | && has(storage.commitStorage[blockHeight][view][content(blockHash)], content(result[i]))
+//@   loop range senders
+//@     invariant [keys] i == $i && len(keys) == len(senders) && (forall j int :: 0 <= j && j < i ==> has(senders, content(keys[j])))
